@@ -363,11 +363,12 @@ def main():
                 open(os.path.join(d, tag, "m.wasm"), "wb").write(bts)
                 rc, so, se = run([w2c2, "-t", "1", "m.wasm", "m.c"], cwd=os.path.join(d, tag), timeout=120)
                 out.append((rc, se, open(os.path.join(d, tag, "m.c")).read() if rc == 0 else "", open(os.path.join(d, tag, "m.h")).read() if rc == 0 else ""))
-            # debug output asked for (-g): custom sections other than "name" are still none of the translator's business, whatever they are
-            # called (.debug_*, producers, ...) and whether or not it was built with a DWARF library
+            # debug output asked for (-g): custom sections are still none of the translator's business, whatever they are called (.debug_*,
+            # producers, ...) and whether or not it was built with a DWARF library - and a section called "name" whose contents or place are
+            # not what a name section's should be is read as far as it makes sense and never invalidates the module
             cnames = [x["name"] for x in c.get("custom", [])] if isinstance(c, dict) else []
             grc, gse = 0, ""
-            if cnames and "name" not in cnames and not any(isinstance(n_, str) and n_.startswith("name") for n_ in cnames):
+            if cnames:
                 grc, _, gse = run([w2c2, "-t", "1", "-g", "m.wasm", "g.c"], cwd=os.path.join(d, "alt"), timeout=120)
             shutil.rmtree(d, ignore_errors=True)
             devs = []
@@ -424,7 +425,7 @@ def main():
            "leb_vectors_checked": nvec, "encodings": len(jobs), "encoder_fields_cross_checked": fields_checked, "exhaustive": False}
     return v.finish("model_checking", cov,
                     ["module-level encodings are produced by bind/py/wasm_encode.py; its LEB padding is cross-checked against Leb128.tla and every "
-                     "encoding it produced is decoded by WasmBinary.tla and compared with the abstract module (a wrong encoder is a machinery error)", "name and debug custom sections are only parsed with -g (not exercised here beyond presence)"])
+                     "encoding it produced is decoded by WasmBinary.tla and compared with the abstract module (a wrong encoder is a machinery error)", "with -g the name section is parsed: only acceptance is checked here (c09 checks what the names are used for)"])
 
 
 main_wrap(main)
